@@ -62,18 +62,14 @@ def stepVal (S : Word) (s : Nat) (A : Array Word) : Word :=
   let x := x ^^^ (x >>> rshift.getD (s % 16) 0)
   x ^^^ (x <<< lshift.getD (s % 16) 0)
 
-/-- one round = 16 steps with the same round constant -/
-def round (S : Word) (A : Array Word) : Array Word :=
-  (List.range 16).foldl (fun A s => A.push (stepVal S s A)) A
+/-- one step of the loop `for i = n to n+t-1` (s = i - n): state = (A[0..i-1], S_{i-n}); the round constant changes
+    after every 16th step -/
+def step (st : Array Word × Word) (s : Nat) : Array Word × Word :=
+  (st.1.push (stepVal st.2 s st.1), if s % 16 = 15 then nextS st.2 else st.2)
 
-/-- rounds j, j+1, …, j+r-1 -/
-def roundsFrom : Nat → Word → Array Word → Array Word
-  | 0, _, A => A
-  | r + 1, S, A => roundsFrom r (nextS S) (round S A)
-
-/-- the compression function f_r : W^89 → W^16 — the last 16 words of A after t = 16 r steps -/
+/-- the compression function f_r : W^89 → W^16 — r rounds of 16 steps; the last 16 words of A -/
 def compress (r : Nat) (N : List Word) : List Word :=
-  let A := roundsFrom r S0 N.toArray
+  let A := ((List.range (16 * r)).foldl step (N.toArray, S0)).1
   A.toList.drop (A.size - c)
 
 /-- the control word V = 0⁴ ‖ r¹² ‖ L⁸ ‖ z⁴ ‖ p¹⁶ ‖ keylen⁸ ‖ d¹² (most significant field first) -/
